@@ -77,6 +77,14 @@ theorem parked_rpc_returns_ctx_code (b b' : Bool) (s : St) (e : CtxErr) (p : Pos
   | recv => exact parked_recv e h hp hc hw
   | wquota => exact absurd rfl hne
 
+/-- In particular in the MIDDLE of a message: the 5-byte message header has been consumed
+    (`readMessageHeaderClient`) and the goroutine waits in `readClient` for the rest of the payload
+    (`midMsg`). A unary RPC has no watcher goroutine, so this select is the only thing that listens. -/
+theorem parked_mid_message_returns_ctx_code (b b' : Bool) (s : St) (e : CtxErr) (h : WF s)
+    (hp : s.pc = .parked .recv) (_hm : s.midMsg = true) (hc : s.ctx = none) (hw : wake b s = none) :
+    (step b' s (.ctxFire e)).pc = .returned (codeOfCtx e) :=
+  parked_rpc_returns_ctx_code b b' s e .recv h hp hc hw (by decide)
+
 /-- Write quota: only a streaming RPC can be parked there (a unary RPC sends one message against
     the initial 65536-byte quota). The watcher finishes the stream: SendMsg returns (io.EOF), the
     status is fixed to the context's code … -/
@@ -191,6 +199,11 @@ example : (run (fun _ => false) 0 (St.init false false 0) [.pickerReady, .ctxFir
 example : (run (fun _ => false) 0 (St.init false true 1) [.pickerReady]).pc = .parked .header := by decide
 example : (run (fun _ => false) 0 (St.init false true 1) [.pickerReady, .headers, .message, .trailers 0]).pc = .returned 0 := by decide
 example : (run (fun _ => false) 0 (St.init false true 1) [.pickerReady, .headers, .ctxFire .canceled]).pc = .returned 1 := by decide
+-- unary, header of the response message arrived, payload incomplete: parked mid-message; deadline
+example : let s := run (fun _ => false) 0 (St.init false true 1) [.pickerReady, .headers, .partialMsg]
+    s.pc = .parked .recv ∧ s.midMsg = true ∧ wake false s = none := by decide
+example : (run (fun _ => false) 0 (St.init false true 1) [.pickerReady, .headers, .partialMsg, .ctxFire .deadlineExceeded]).pc
+    = .returned 4 := by decide
 -- streaming: 200000 bytes against the 65536 quota, second SendMsg parks on write quota; deadline
 example : (run (fun _ => false) 0 (St.init true true 1) [.pickerReady, .appSend 200000, .appSend 1]).pc = .parked .wquota := by decide
 example : (run (fun _ => false) 0 (St.init true true 1) [.pickerReady, .appSend 200000, .appSend 1, .ctxFire .deadlineExceeded, .appRecv]).pc
